@@ -138,3 +138,55 @@ func VerifC04_NodeConditions() {
 		}
 	}
 }
+
+// VerifC04_NestedTopologyAllocate: a workload requires one zone of topology "zones"; its sub-group
+// "workers" (a gang of two) additionally requires one block of a different topology "blocks" whose
+// domains cross-cut the zones (n0: z1/b1, n1: z1/b2, n2: z2/b1, n3: z2/b2). Both constraints must
+// hold at the same time for whatever the real allocate action places.
+// BOUND: 4 nodes (cpu = 16 x symbolic k, k in 0..3), two single-level topologies, one workload with a sub-group gang of 2 (16 milli-cpu per pod)
+func VerifC04_NestedTopologyAllocate() {
+	w := &actWorld{vm: resource_info.NewResourceVectorMap()}
+	w.queues = []actQueue{{name: "d", parent: "", deserved: -1, limit: -1}, {name: "qa", parent: "d", deserved: 1 << 10, limit: -1}}
+	labels := []map[string]string{{"zone": "z1", "block": "b1"}, {"zone": "z1", "block": "b2"}, {"zone": "z2", "block": "b1"}, {"zone": "z2", "block": "b2"}}
+	for i, l := range labels {
+		name := vs.Name("n", i)
+		w.addNode(name, 16*vr.AnyFloatNat(name+".podsThatFit", 2))
+		for k, v := range l {
+			w.nodes[i].Node.Labels[k] = v
+		}
+	}
+	var tasks []*pod_info.PodInfo
+	for i := 0; i < 2; i++ {
+		tasks = append(tasks, vs.NewTask(vs.Name("g-t", i), "g", "workers", 16, 0, vs.GpuSpec{}, pod_status.Pending, "", w.vm))
+	}
+	g := &actJob{name: "g", queue: "qa", preempt: true, cpu: []float64{16, 16}, tasks: tasks}
+	g.job = vs.NewJobWithTopologyAndSubGroups("g", "qa", 2,
+		enginev2alpha2.TopologyConstraint{Topology: "zones", RequiredTopologyLevel: "zone"},
+		[]enginev2alpha2.SubGroup{{Name: "workers", MinMember: 2, TopologyConstraint: &enginev2alpha2.TopologyConstraint{Topology: "blocks", RequiredTopologyLevel: "block"}}},
+		w.vm, tasks...)
+	w.jobs = append(w.jobs, g)
+	w.open()
+	w.ssn.ClusterInfo.Topologies = []*kaiv1alpha1.Topology{
+		{ObjectMeta: metav1.ObjectMeta{Name: "zones"}, Spec: kaiv1alpha1.TopologySpec{Levels: []kaiv1alpha1.TopologyLevel{{NodeLabel: "zone"}}}},
+		{ObjectMeta: metav1.ObjectMeta{Name: "blocks"}, Spec: kaiv1alpha1.TopologySpec{Levels: []kaiv1alpha1.TopologyLevel{{NodeLabel: "block"}}}},
+	}
+	topology.New(framework.PluginArguments{}).OnSessionOpen(w.ssn)
+	w.symbolicFairShares(8)
+	allocate.New().Execute(w.ssn)
+	var on []int
+	for _, t := range tasks {
+		if t.Status != pod_status.Pending {
+			for i, n := range w.nodes {
+				if n.Name == t.NodeName {
+					on = append(on, i)
+				}
+			}
+		}
+	}
+	vr.Observe("placed", len(on))
+	vr.Cover(len(on) == 2, "C04.cover.nested-gang-placed")
+	if len(on) == 2 {
+		vr.Assert(labels[on[0]]["zone"] == labels[on[1]]["zone"], "C04.parent-constraint-holds-together-with-the-sub-groups")
+		vr.Assert(labels[on[0]]["block"] == labels[on[1]]["block"], "C04.sub-group-constraint-holds-together-with-the-parents")
+	}
+}
